@@ -494,9 +494,27 @@ class _SelSubst(ast.NodeTransformer):
 
 def _selection(st):
     """-> (names, [exprs of the true branch], [exprs of the false branch]) for an if/else that only selects a tuple"""
+    def plain(e):
+        return _simple(e) or (isinstance(e, ast.Tuple) and all(_simple(x) for x in e.elts))
+    # several plain assignments per arm (a split tuple assignment): same names, in the same order, in both arms
+    if isinstance(st, ast.If) and len(st.body) == len(st.orelse) >= 2 and all(
+            isinstance(x, ast.Assign) and len(x.targets) == 1 and isinstance(x.targets[0], ast.Name) and plain(x.value)
+            for x in st.body + st.orelse):
+        na = [x.targets[0].id for x in st.body]
+        nb = [x.targets[0].id for x in st.orelse]
+        used = set(n.id for x in st.body + st.orelse for n in ast.walk(x.value) if isinstance(n, ast.Name))
+        if na == nb and len(set(na)) == len(na) and not (set(na) & used):
+            return na, [x.value for x in st.body], [x.value for x in st.orelse]
+        return None
     if not (isinstance(st, ast.If) and len(st.body) == 1 and len(st.orelse) == 1):
         return None
     a, b = st.body[0], st.orelse[0]
+    # one selected callable: `if c: f = F1` / `else: f = F2`
+    if all(isinstance(x, ast.Assign) and len(x.targets) == 1 and isinstance(x.targets[0], ast.Name) for x in (a, b)):
+        if a.targets[0].id == b.targets[0].id and plain(a.value) and plain(b.value) and \
+                isinstance(a.value, (ast.Name, ast.Attribute)) and isinstance(b.value, (ast.Name, ast.Attribute)):
+            return [a.targets[0].id], [a.value], [b.value]
+        return None
     for x in (a, b):
         if not (isinstance(x, ast.Assign) and len(x.targets) == 1 and isinstance(x.targets[0], ast.Tuple) and
                 isinstance(x.value, ast.Tuple) and len(x.value.elts) == len(x.targets[0].elts) and
@@ -505,9 +523,6 @@ def _selection(st):
     names = [t.id for t in a.targets[0].elts]
     if names != [t.id for t in b.targets[0].elts] or len(names) < 2:
         return None
-
-    def plain(e):
-        return _simple(e) or (isinstance(e, ast.Tuple) and all(_simple(x) for x in e.elts))
     if not all(plain(e) for e in a.value.elts + b.value.elts):
         return None
     return names, a.value.elts, b.value.elts
@@ -591,6 +606,45 @@ class _ReturnIfExp(ast.NodeTransformer):
             return new
         return node
 
+    def visit_Assign(self, node):
+        # `a, b = X, Y` -> `a = X; b = Y` when no target name occurs in X or Y (not a swap): each value gets its own definition
+        if len(node.targets) == 1 and isinstance(node.targets[0], ast.Tuple) and isinstance(node.value, ast.Tuple) and \
+                len(node.targets[0].elts) == len(node.value.elts) and all(isinstance(t, ast.Name) for t in node.targets[0].elts) and \
+                not any(isinstance(x, ast.Starred) for x in node.value.elts):
+            names = set(t.id for t in node.targets[0].elts)
+            used = set(n.id for v_ in node.value.elts for n in ast.walk(v_) if isinstance(n, ast.Name))
+            if len(names) == len(node.targets[0].elts) and not (names & used):
+                self.count += 1
+                out = []
+                for t, v_ in zip(node.targets[0].elts, node.value.elts):
+                    a = ast.copy_location(ast.Assign(targets=[ast.Name(id=t.id, ctx=ast.Store())], value=v_), node)
+                    r = self.visit_Assign(ast.fix_missing_locations(a))
+                    out.extend(r if isinstance(r, list) else [r])
+                return out
+        # `x = A if c else B` -> `if c: x = A` / `else: x = B` when A or B contains a call (the two calls become two CFG nodes)
+        v = node.value
+        if isinstance(v, ast.IfExp) and len(node.targets) == 1 and isinstance(node.targets[0], ast.Name) and \
+                (any(isinstance(x, ast.Call) for x in list(ast.walk(v.body)) + list(ast.walk(v.orelse))) or
+                 (isinstance(v.body, ast.Attribute) and isinstance(v.orelse, ast.Attribute))):
+            self.count += 1
+            a = ast.copy_location(ast.Assign(targets=[copy.deepcopy(node.targets[0])], value=v.body), node)
+            b = ast.copy_location(ast.Assign(targets=[copy.deepcopy(node.targets[0])], value=v.orelse), node)
+            return ast.copy_location(ast.If(test=v.test, body=[self.visit_Assign(a)], orelse=[self.visit_Assign(b)]), node)
+        return node
+
+    def visit_If(self, node):
+        # `if not x: x = E`  ->  `x = x or E`  (same value in both cases; one spelling for the rules)
+        self.generic_visit(node)
+        t = node.test
+        if isinstance(t, ast.UnaryOp) and isinstance(t.op, ast.Not) and isinstance(t.operand, ast.Name) and not node.orelse \
+                and len(node.body) == 1 and isinstance(node.body[0], ast.Assign) and len(node.body[0].targets) == 1 \
+                and isinstance(node.body[0].targets[0], ast.Name) and node.body[0].targets[0].id == t.operand.id:
+            self.count += 1
+            new = ast.Assign(targets=[ast.Name(id=t.operand.id, ctx=ast.Store())],
+                             value=ast.BoolOp(op=ast.Or(), values=[ast.Name(id=t.operand.id, ctx=ast.Load()), node.body[0].value]))
+            return ast.fix_missing_locations(ast.copy_location(new, node))
+        return node
+
     def visit_Lambda(self, node):
         return node
 
@@ -647,8 +701,15 @@ def _propagate_in_function(fn, final):
         if isinstance(st, ast.Assign) and len(st.targets) == 1 and isinstance(st.targets[0], ast.Name):
             a = st.targets[0].id
             v = st.value
-            ok_value = (isinstance(v, ast.Attribute) and isinstance(v.value, ast.Name) and v.value.id == "self" and v.attr in final
-                        and "self" in params and stores.get("self", 0) == 0) or \
+            def _final_chain(x):
+                # self.F, or self.F.g (an attribute of the object held in a final field: never rebound by the package)
+                if isinstance(x, ast.Attribute) and isinstance(x.value, ast.Name) and x.value.id == "self":
+                    return x.attr in final
+                if isinstance(x, ast.Attribute) and isinstance(x.value, ast.Attribute):
+                    return _final_chain(x.value) and not any(
+                        isinstance(n, ast.Attribute) and n.attr == x.attr and isinstance(n.ctx, (ast.Store, ast.Del)) for n in ast.walk(fn))
+                return False
+            ok_value = (_final_chain(v) and "self" in params and stores.get("self", 0) == 0) or \
                        (isinstance(v, ast.Name) and v.id in params and stores.get(v.id, 0) == 0)
             if ok_value and stores.get(a, 0) == 1 and a not in params:
                 used_before = any(isinstance(n, ast.Name) and n.id == a for b in fn.body[:i] for n in ast.walk(b))
